@@ -329,7 +329,7 @@ def _enclosing_conds(ctx, f, stmt_or_expr):
     return tuple(out)
 
 
-def gated_values(ctx, f, expr: ast.AST, _depth: int = 0, _seen=None):
+def gated_values(ctx, f, expr: ast.AST, _depth: int = 0, _seen=None, strip_wrappers: bool = False):
     """[(conditions, leaf term)] for the value of ``expr``: local variables are followed to
     their definitions (each with the conditions of its enclosing if statements), conditional
     expressions are split, transparent helpers are looked into (their early returns become
@@ -349,17 +349,17 @@ def gated_values(ctx, f, expr: ast.AST, _depth: int = 0, _seen=None):
                     if d.id in _seen:
                         continue
                     conds = _enclosing_conds(ctx, f, d.node.stmt if getattr(d.node, "stmt", None) is not None else d.value)
-                    for c2, leaf in gated_values(ctx, f, d.value, _depth + 1, _seen | {d.id}):
+                    for c2, leaf in gated_values(ctx, f, d.value, _depth + 1, _seen | {d.id}, strip_wrappers):
                         out.append((conds + c2, leaf))
                 return _feasible(out)
     if isinstance(expr, ast.IfExp):
         a, p = norm_cond(X.value_at(f, expr.test))
         for branch, pol in ((expr.body, p), (expr.orelse, not p)):
-            for c2, leaf in gated_values(ctx, f, branch, _depth + 1, _seen):
+            for c2, leaf in gated_values(ctx, f, branch, _depth + 1, _seen, strip_wrappers):
                 out.append((((a, pol),) + c2, leaf))
         return _feasible(out)
     t = X.force_inline(X.value_at(f, expr), f)
-    return _feasible(list(guard_leaves(t, strip_wrappers=False)))
+    return _feasible(list(guard_leaves(t, strip_wrappers=strip_wrappers)))
 
 
 def _feasible(items):
